@@ -18,6 +18,9 @@
 // op lines (ids/traverser numbers: 1..6 decimal digits; traversers 0..3):
 //
 //	push                 l.PushBack(id)            the n-th push creates element n
+//	pushrm               e := l.PushBack(id); l.Remove(e) back to back, GOMAXPROCS(1) pinned around the
+//	                     pair: a caller parked in NextWait on the tail / in FrontWait is woken by the push
+//	                     and finds nothing when it runs — it must block again (output ok:<id>/<Remove result>)
 //	remove <id>          l.Remove(elem[id])
 //	detachprev <id>      elem[id].DetachPrev()
 //	detachnext <id>      elem[id].DetachNext()
@@ -63,6 +66,7 @@ import (
 	"runtime"
 	"strings"
 	"sync"
+	"sync/atomic"
 	"time"
 
 	"github.com/gnolang/gno/tm2/pkg/clist"
@@ -75,6 +79,9 @@ const maxTrav = 4
 const maxElems = 10
 
 var hangTimeout = 3 * time.Second
+
+// how long a caller woken for nothing is given to (wrongly) return
+const spuriousGrace = 3 * time.Millisecond
 
 const (
 	stIdle = iota
@@ -89,6 +96,12 @@ type trav struct {
 	cur *clist.CElement
 	log []int
 	res chan *clist.CElement
+	// waitCh: the wait channel that was current when the call was launched (or
+	// when the caller was last seen to have gone back to sleep).  If it is closed
+	// while the wake-up condition does not hold, the caller has been woken for
+	// nothing (pushrm: PushBack then Remove before it ran): it must go back to
+	// sleep, which is given a grace period to show.
+	waitCh <-chan struct{}
 	// hung: the call did not return within hangTimeout although its wake-up
 	// condition held (reported as lost-wakeup); it stays pending and is polled
 	// with a short deadline from then on.
@@ -111,6 +124,8 @@ type world struct {
 }
 
 var w *world
+
+var stressFailures int
 
 func newWorld() *world {
 	x := &world{l: clist.New(), id: map[*clist.CElement]int{}}
@@ -342,6 +357,19 @@ func (x *world) settle() {
 				x.viol("lost-wakeup", "traverser still blocked in "+what)
 				t.hung = true
 			}
+		} else if t.waitCh != nil && isClosed(t.waitCh) {
+			// woken although there is nothing to return: the call must re-check and
+			// block again (NextWait/FrontWait loop); a return now is spurious.
+			select {
+			case r := <-t.res:
+				x.arrive(t, r, front)
+			case <-time.After(spuriousGrace):
+				if front {
+					t.waitCh = x.l.WaitChan()
+				} else {
+					t.waitCh = t.cur.NextWaitChan()
+				}
+			}
 		} else {
 			runtime.Gosched()
 			select {
@@ -488,7 +516,7 @@ func exec(t []string) (string, string) {
 	x.pendingViol = ""
 	arg := -1
 	switch t[0] {
-	case "push":
+	case "push", "pushrm":
 		if len(t) != 1 {
 			return "err:badop", "-"
 		}
@@ -514,7 +542,15 @@ func exec(t []string) (string, string) {
 		if !(ok1 && ok2 && ok3) || n == 0 || n > 5000 || k == 0 || k > 8 {
 			return "err:badop", "-"
 		}
-		return "stress", stress(uint64(seed), n, k)
+		// a failing stress run costs its whole deadline: stop searching after two
+		if stressFailures >= 2 {
+			return "stress", "-"
+		}
+		v := stress(uint64(seed), n, k)
+		if v != "ok" {
+			stressFailures++
+		}
+		return "stress", v
 	default:
 		return "err:badop", "-"
 	}
@@ -522,6 +558,41 @@ func exec(t []string) (string, string) {
 		return "err:poisoned", "-"
 	}
 	switch t[0] {
+	case "pushrm":
+		// PushBack and Remove of the new element back to back: a caller parked on the
+		// tail (or in FrontWait on the empty list) is woken by the push but cannot
+		// run before the removal (one P, no blocking call or yield in between).
+		for _, tr := range x.travs {
+			if tr.st == stWantFront || tr.st == stWantNext {
+				time.Sleep(100 * time.Microsecond) // let it reach Wait()
+				break
+			}
+		}
+		id := len(x.elems)
+		var e *clist.CElement
+		procs := runtime.GOMAXPROCS(1)
+		res := call(func() { e = x.l.PushBack(id) })
+		res2 := ""
+		if res == "ok" {
+			res2 = call(func() { x.l.Remove(e) })
+		}
+		runtime.GOMAXPROCS(procs)
+		if res == "panic:wg" {
+			x.poisoned = true
+			x.viol("wg-panic", "PushBack")
+			return res, x.verdict()
+		}
+		x.elems = append(x.elems, e)
+		x.id[e] = id
+		x.removed = append(x.removed, res2 == "ok" || res2 == "panic:wg")
+		if res2 == "panic:wg" {
+			x.poisoned = true
+			x.viol("wg-panic", "pushrm Remove")
+			return res2, x.verdict()
+		}
+		x.nextCh = append(x.nextCh, []<-chan struct{}{e.NextWaitChan()})
+		x.prevCh = append(x.prevCh, []<-chan struct{}{e.PrevWaitChan()})
+		return x.finish(fmt.Sprintf("ok:%d/%s", id, res2))
 	case "push":
 		id := len(x.elems)
 		var e *clist.CElement
@@ -572,6 +643,7 @@ func exec(t []string) (string, string) {
 		case "tfront":
 			tr.st, tr.cur, tr.log = stWantFront, nil, nil
 			tr.res = make(chan *clist.CElement, 1)
+			tr.waitCh = x.l.WaitChan()
 			go func(l *clist.CList, c chan *clist.CElement) { c <- l.FrontWait() }(x.l, tr.res)
 			return x.finish("ok")
 		case "tnext":
@@ -580,6 +652,7 @@ func exec(t []string) (string, string) {
 			}
 			tr.st = stWantNext
 			tr.res = make(chan *clist.CElement, 1)
+			tr.waitCh = tr.cur.NextWaitChan()
 			go func(e *clist.CElement, c chan *clist.CElement) { c <- e.NextWait() }(tr.cur, tr.res)
 			return x.finish("ok")
 		default: // tnextnow
@@ -599,7 +672,10 @@ func exec(t []string) (string, string) {
 // ---------------------------------------------------------------- concurrent stress (search support; judged by the oracle only)
 
 // stress: one appender pushes 0..n-1 and then the sentinel n; two removers remove
-// (each element at most once) the ids with id%3 != 2 and DetachPrev them; k
+// (each element at most once) the ids with id%3 != 2 and DetachPrev them — remover 0
+// the ids 3k, remover 1 their neighbours 3k+1, either keeping pace with the appender
+// or working off a backlog, and in lockstep mode meeting before every removal so that
+// two ADJACENT elements are removed at the same instant; k
 // traversers walk FrontWait/NextWait (odd ones: NextWaitChan + Next, as the
 // mempool reactor does) until they reach the sentinel, restarting from FrontWait
 // when handed nil.  Oracle: every traversal segment strictly increasing; no
@@ -611,6 +687,25 @@ func stress(seed uint64, n, k int) string {
 	r := kit.NewRand(seed)
 	keep := func(id int) bool { return id%3 == 2 || id == n }
 	feeds := [2]chan *clist.CElement{make(chan *clist.CElement, n+1), make(chan *clist.CElement, n+1)}
+	// the removers start when element startAt is pushed: 0 = removal keeps pace with
+	// the appender, later = they work off a backlog at full speed
+	start := make(chan struct{})
+	startAt, gosched := 0, 30
+	if r.Chance(70) {
+		startAt, gosched = r.Intn(n+1), 3
+	}
+	// lockstep: the removers meet at a spin barrier before each removal, so the neighbours 3k and 3k+1
+	// are removed at the same instant (both calls enter Remove together)
+	lockstep := r.Chance(75)
+	dead := make(chan struct{})
+	var arrived int64
+	var deadOnce sync.Once
+	pairs := 0
+	for id := 0; id < n; id++ {
+		if id%3 == 1 {
+			pairs++
+		}
+	}
 	var wg sync.WaitGroup
 	type seg []int
 	logs := make([][]seg, k)
@@ -658,12 +753,34 @@ func stress(seed uint64, n, k int) string {
 			defer func() {
 				if v := recover(); v != nil {
 					bad[0] = fmt.Sprint("remover panic ", v)
+					deadOnce.Do(func() { close(dead) })
 				}
 			}()
+			<-start
+			i := 0
 			for e := range feeds[ri] {
-				if rr.Chance(30) {
+				if lockstep && i < pairs {
+					// spin barrier (both removers are running when it opens; a channel
+					// hand-off would let one finish before the other is scheduled)
+					atomic.AddInt64(&arrived, 1)
+					for spins := 0; atomic.LoadInt64(&arrived) < int64(2*(i+1)); spins++ {
+						if spins%8192 == 8191 {
+							select {
+							case <-dead:
+								atomic.AddInt64(&arrived, 1<<40)
+							default:
+								runtime.Gosched()
+							}
+						}
+					}
+					// random offset of a few dozen ns between the two calls
+					for j := rr.Intn(48); j > 0; j-- {
+						atomic.LoadInt64(&arrived)
+					}
+				} else if rr.Chance(gosched) {
 					runtime.Gosched()
 				}
+				i++
 				l.Remove(e)
 				e.DetachPrev()
 			}
@@ -673,9 +790,15 @@ func stress(seed uint64, n, k int) string {
 	go func(rr *kit.Rand) {
 		defer wg.Done()
 		for id := 0; id <= n; id++ {
+			if id == startAt {
+				close(start)
+			}
 			e := l.PushBack(id)
 			if !keep(id) {
-				feeds[rr.Intn(2)] <- e
+				// 3k goes to remover 0, its neighbour 3k+1 to remover 1: once the
+				// removers work off a backlog they remove ADJACENT elements at the
+				// same time, contending for l.mtx
+				feeds[id%3] <- e
 			}
 			if rr.Chance(10) {
 				runtime.Gosched()
@@ -688,7 +811,7 @@ func stress(seed uint64, n, k int) string {
 	go func() { wg.Wait(); close(done) }()
 	select {
 	case <-done:
-	case <-time.After(60 * time.Second):
+	case <-time.After(15 * time.Second):
 		return "VIOL:lost-wakeup stress: goroutines did not finish (traverser never reached the sentinel)"
 	}
 	for ti := 0; ti < k; ti++ {
@@ -779,6 +902,11 @@ func boundary(o *kit.Out) {
 	c("double-remove-prev-removed", "push", "push", "push", "remove 1", "remove 0", "remove 1", "remove 2", "remove 0", "push")
 	c("busy", "tfront 0", "tfront 0", "tnext 0", "tnextnow 0", "push", "tnext 0", "tnext 0", "tfront 0", "tnextnow 0")
 	c("all-traversers", "tfront 0", "tfront 1", "tfront 2", "tfront 3", "push", "tnext 0", "tnext 1", "tnext 2", "tnext 3", "remove 0", "push", "push", "tnext 1", "tnext 3")
+	// a caller woken for nothing (push then remove before it runs) must go back to sleep
+	c("pushrm-parked-tail", "push", "tfront 0", "tnext 0", "pushrm", "pushrm", "push", "tnext 0", "pushrm")
+	c("pushrm-parked-front", "tfront 0", "pushrm", "pushrm", "tfront 1", "pushrm", "push", "tnext 0", "tnext 1")
+	c("pushrm-many", "push", "tfront 0", "tnext 0", "tfront 1", "tnext 1", "tfront 2", "pushrm", "tnext 2", "pushrm", "remove 0", "pushrm", "push")
+	c("pushrm-empty", "pushrm", "pushrm", "tfront 0", "push", "pushrm", "tnext 0", "pushrm", "remove 2", "pushrm")
 	// every removal order of a three-element list, with one waiting and one walking traverser
 	perms := [][3]int{{0, 1, 2}, {0, 2, 1}, {1, 0, 2}, {1, 2, 0}, {2, 0, 1}, {2, 1, 0}}
 	for _, p := range perms {
@@ -847,6 +975,10 @@ func (g *gen) randomCase(id string, nOpsMax int) {
 			o.Op("tfront %d", r.Intn(maxTrav))
 		case p < 90:
 			o.Op("tnext %d", r.Intn(maxTrav))
+		case p < 95 && n < maxElems:
+			gone = append(gone, n)
+			n++
+			o.Op("pushrm")
 		default:
 			o.Op("tnextnow %d", r.Intn(maxTrav))
 		}
@@ -857,7 +989,7 @@ func malformed(g *gen, n int) {
 	r, o := g.r, g.o
 	o.Case("malformed")
 	toks := []string{"", "x", "-", "-1", "+1", "0", "1", "2", "3", "4", "007", "1234567", "999999", "1_0", "0x1", "1e1", "18446744073709551616", "a"}
-	ops := []string{"push", "remove", "detachprev", "detachnext", "tfront", "tnext", "tnextnow", "stress", "Push", "pop", "tstep"}
+	ops := []string{"push", "pushrm", "remove", "detachprev", "detachnext", "tfront", "tnext", "tnextnow", "stress", "Push", "pop", "tstep"}
 	for i := 0; i < n; i++ {
 		op := kit.Pick(r, ops)
 		parts := []string{op}
@@ -875,7 +1007,7 @@ func malformed(g *gen, n int) {
 func generate(o *kit.Out, r *kit.Rand, tier string) {
 	g := &gen{o: o, r: r}
 	boundary(o)
-	cases, nstress, sn := 5000, 4, 300
+	cases, nstress, sn := 5000, 24, 300
 	if tier == "thorough" {
 		cases, nstress, sn = 30000, 60, 3000
 	}
